@@ -103,11 +103,18 @@ Example C12_example_whole_file : Forall good ex_file /\
                           RLine (s2t "call s(1, 2)") None None 12 12] /\
   read_source (flat_map phys ex_file) true false false = items false ex_file 0.
 Proof.
-  split; [|split; [|split; [|split]]]; try (vm_compute; reflexivity).
+  split; [|split; [|split; [|split]]].
+  2-5: vm_compute; reflexivity.
   repeat (apply Forall_cons || apply Forall_nil); cbn [good]; cbv zeta; repeat split;
-    first [ vm_compute; reflexivity | discriminate | eexists; split; vm_compute; reflexivity
-          | intros a b; reflexivity | vm_compute; Lia.lia
-          | repeat constructor; first [vm_compute; reflexivity | exact I] ].
+    lazymatch goal with
+    | |- _ <= _ => vm_compute; Lia.lia
+    | |- exists _, _ => eexists; split; vm_compute; reflexivity
+    | |- _ <> _ => vm_compute; discriminate
+    | |- forall _, _ => intros; vm_compute; reflexivity
+    | |- Forall _ _ => repeat constructor; first [vm_compute; reflexivity | exact I]
+    | |- mids_ok _ => repeat constructor; vm_compute; reflexivity
+    | |- _ => vm_compute; reflexivity
+    end.
 Qed.
 Goal True. idtac "ASSUMPTIONS-OF C12_example_whole_file". Abort.
 Print Assumptions C12_example_whole_file.
